@@ -6,6 +6,8 @@ import (
 	"os"
 	"testing"
 
+	"github.com/ipld/go-storethehash/store"
+
 	"pgregory.net/rapid"
 )
 
@@ -28,11 +30,63 @@ type SuspCase struct {
 	N      int       `json:"n"`
 	Other  []Op      `json:"other"` // second task: writes on other keys, then Flush
 	GCLow  int       `json:"gc_low"`
+	// Shape 1: a GC cycle is parked at PointGC inside the cycle, then a Flush
+	// (with the acknowledged but unflushed writes of Unflushed pending) runs
+	// up to PointFlush, then the GC cycle completes, and the image is taken
+	// with the flush still suspended.
+	Shape      int    `json:"shape,omitempty"`
+	Unflushed  []Op   `json:"unflushed,omitempty"`
+	GC         Op     `json:"gc,omitempty"`
+	PointGC    string `json:"point_gc,omitempty"`
+	NGC        int    `json:"n_gc,omitempty"`
+	PointFlush string `json:"point_flush,omitempty"`
+}
+
+var suspGCPointsI = []string{"igc.file", "igc.reap.busyChecked", "igc.reap.mark", "igc.reap.truncate", "igc.free.scanned", "igc.header", "igc.unlink"}
+var suspGCPointsP = []string{"pgc.fl.handed", "pgc.freelistDone", "pgc.file", "pgc.reap.truncate", "pgc.reap.relocate", "pgc.reap.relocated", "pgc.header", "pgc.unlink"}
+var suspFlushPoints = []string{"mh.flush.swapped", "mh.flush.write", "mh.flush.written", "commit.primaryFlushed", "index.flush.swapped", "index.roll.create", "index.flush.write", "index.flush.written", "commit.indexFlushed", "fl.flush.swapped"}
+
+func genSusp2(t *rapid.T) SuspCase {
+	c := SuspCase{Shape: 1}
+	c.Cfg = genConfig(t, cfgGenOpts{smallBits: true, smallFiles: true})
+	if c.Cfg.Bits > 12 {
+		c.Cfg.Bits = 8
+	}
+	c.Cfg.Immutable = false
+	if weighted(t, "roomy", []int{1, 1}) == 1 {
+		c.Cfg.IdxSize = []uint32{33, 40, 48, 64, 100}[rapid.IntRange(0, 4).Draw(t, "roomyidx")]
+		c.Cfg.PrimSize = []uint32{33, 48, 64, 100, 256}[rapid.IntRange(0, 4).Draw(t, "roomyprim")]
+	}
+	c.Keys = genKeys(t, c.Cfg, 3, 8)
+	pm := genMix(t, []string{opPut, opRemove, opFlush}, []int{6, 1, 4})
+	c.Prefix = genOps(t, pm, len(c.Keys), c.Cfg, 4, 20, false)
+	// Two more flushed writes, so that most records of the prefix sit in
+	// files that are no longer the current ones (GC only works on those).
+	for j := 0; j < 2; j++ {
+		c.Prefix = append(c.Prefix, Op{K: opPut, Key: rapid.IntRange(0, len(c.Keys)-1).Draw(t, "pushkey"), VLen: 2 + j}, Op{K: opFlush})
+	}
+	nu := rapid.IntRange(1, 4).Draw(t, "unflushed")
+	for i := 0; i < nu; i++ {
+		c.Unflushed = append(c.Unflushed, Op{K: []string{opPut, opRemove}[weighted(t, "ukind", []int{5, 1})], Key: rapid.IntRange(0, len(c.Keys)-1).Draw(t, "ukey"), VLen: 5 + i})
+	}
+	if c.Cfg.Primary == store.MultihashPrimary && weighted(t, "gckind", []int{3, 1}) == 1 {
+		c.GC = Op{K: opPGC, A: []int{0, 50, 100}[rapid.IntRange(0, 2).Draw(t, "lowuse")]}
+		c.PointGC = suspGCPointsP[weighted(t, "gcpoint", []int{2, 2, 6, 1, 2, 1, 1, 1})]
+	} else {
+		c.GC = Op{K: opIGC, A: rapid.IntRange(0, 1).Draw(t, "scanfree")}
+		// Mostly parked before a file is processed: what the cycle decides
+		// about that file is then decided behind the suspended flush.
+		c.PointGC = suspGCPointsI[weighted(t, "gcpoint", []int{8, 2, 2, 1, 2, 1, 1})]
+	}
+	c.NGC = 1 + weighted(t, "ngc", []int{5, 3, 1, 1})
+	c.PointFlush = suspFlushPoints[weighted(t, "flpoint", []int{1, 2, 2, 1, 2, 1, 8, 3, 1, 1})]
+	c.GCLow = []int{0, 50, 100}[rapid.IntRange(0, 2).Draw(t, "gclow")]
+	return c
 }
 
 var suspPoints = []string{"put.indexGot", "put.primaryChecked", "put.primaryPut", "put.indexUpdated", "remove.indexGot", "remove.primaryChecked", "remove.indexRemoved"}
 
-const suspRuleText = "Suspended-call crash sub-campaign: after a generated sequential prefix one foreground call (overwrite / Put of a new key / Remove) is parked by the cooperative scheduler at a drawn point between its sub-steps (index lookup, primary check, primary put, index update / removal, freelist put), a second task writes other keys and completes a Flush, and the directory is copied while every task is parked or finished (a process crash at that instant); the image is opened and must satisfy the independent fsck, read every other key exactly as flushed and the suspended call's key as its old or its new value, and keep doing so after a primary GC cycle, an index GC cycle and a flush"
+const suspRuleText = "Suspended-call crash sub-campaign: after a generated sequential prefix one foreground call (overwrite / Put of a new key / Remove) is parked by the cooperative scheduler at a drawn point between its sub-steps (index lookup, primary check, primary put, index update / removal, freelist put), a second task writes other keys and completes a Flush, and the directory is copied while every task is parked or finished (a process crash at that instant); the image is opened and must satisfy the independent fsck, read every other key exactly as flushed and the suspended call's key as its old or its new value, and keep doing so after a primary GC cycle, an index GC cycle and a flush; second shape (two preemptions): a GC cycle is parked at a drawn point inside the cycle, a Flush with acknowledged unflushed writes pending runs up to a drawn point inside the flush pipeline, the GC cycle completes, and the image is taken with the flush still suspended - every key must then read one of the states it had since the last completed flush"
 
 func genSusp(t *rapid.T) SuspCase {
 	var c SuspCase
@@ -94,7 +148,198 @@ func (p snapWhenAlone) pick(c []*schedTask, step int) *schedTask {
 	return t
 }
 
+// snapWhenGCDone wraps the double-preemption policy of shape 1.
+type snapWhenGCDone struct {
+	inner doublePreemption
+	ready func() bool
+	snap  func()
+	done  *bool
+}
+
+func (p snapWhenGCDone) pick(c []*schedTask, step int) *schedTask {
+	t := p.inner.pick(c, step)
+	if !*p.done && t.id == p.inner.b && t.point == p.inner.pb && p.ready() {
+		*p.done = true
+		p.snap()
+	}
+	return t
+}
+
+// runSusp2 runs shape 1 (see SuspCase.Shape).
+func runSusp2(c SuspCase, withFsck bool) (st suspStats, v *Violation) {
+	dir := newScratch("susp2")
+	defer os.RemoveAll(dir)
+	s, err := openStore(dir, c.Cfg)
+	if err != nil {
+		panic(infraError{err})
+	}
+	enc := func(k int) []byte { return c.Keys[k%len(c.Keys)].Encode(c.Cfg.Primary, false) }
+	model := map[int][]byte{}
+	apply := func(i int, op Op) error {
+		k := op.Key % len(c.Keys)
+		switch op.K {
+		case opPut, opRePut:
+			val := valueFor(i, op.VLen, false)
+			if err := s.Put(enc(k), val); err != nil {
+				return err
+			}
+			model[k] = val
+		case opRemove:
+			if _, err := s.Remove(enc(k)); err != nil {
+				return err
+			}
+			delete(model, k)
+		case opFlush:
+			return s.Flush()
+		}
+		return nil
+	}
+	for i, op := range append(append([]Op{}, c.Prefix...), Op{K: opFlush}) {
+		if err := apply(i, op); err != nil {
+			closeQuietly(s)
+			return st, nil
+		}
+	}
+	// allowed[k]: every state the key had from the last completed flush on.
+	type state struct {
+		val     []byte
+		present bool
+	}
+	allowed := map[int][]state{}
+	for k := range c.Keys {
+		v, p := model[k]
+		allowed[k] = []state{{v, p}}
+	}
+	for i, op := range c.Unflushed {
+		if err := apply(7000+i, op); err != nil {
+			closeQuietly(s)
+			return st, nil
+		}
+		k := op.Key % len(c.Keys)
+		v, p := model[k]
+		allowed[k] = append(allowed[k], state{v, p})
+		if len(allowed[k]) > 1 {
+			st.overwrite = true
+		}
+	}
+	var img dirImage
+	snapped := false
+	sch := newScheduler()
+	sch.install()
+	sch.spawn("gc", func(yield func(string)) {
+		if c.GC.K == opPGC {
+			if mp := mhPrimaryOf(s); mp != nil {
+				mp.GC(bg, int64(c.GC.A))
+			}
+		} else {
+			s.Index().VerifGC(bg, c.GC.A == 1)
+		}
+	})
+	sch.spawn("flush", func(yield func(string)) { s.Flush() })
+	pol := snapWhenGCDone{inner: doublePreemption{a: 0, b: 1, pa: c.PointGC, pb: c.PointFlush, na: max(c.NGC, 1), nb: 1, phase: new(int)}, done: &snapped,
+		ready: func() bool {
+			sch.mu.Lock()
+			defer sch.mu.Unlock()
+			return len(sch.tasks) > 1 && sch.tasks[0].state == tsDone
+		},
+		snap: func() { img = readDirImage(dir) }}
+	sch.run(pol, 6000)
+	sch.release()
+	sch.uninstall()
+	closeQuietly(s)
+	if img == nil {
+		return st, nil
+	}
+	st.snapped = true
+	site := "gc-then-flush-suspended@" + c.PointFlush
+
+	dir2 := newScratch("susprec")
+	defer os.RemoveAll(dir2)
+	img.writeTo(dir2)
+	var s2 = s
+	v = guard(0, "suspended-recovery-open", func() *Violation {
+		var err error
+		s2, err = openStore(dir2, c.Cfg)
+		if err != nil {
+			return viol("recovery-open-fails|"+site+"|"+errClass(err), 0, "OpenStore on the image failed: %v", err)
+		}
+		return nil
+	})
+	if v != nil {
+		return st, v
+	}
+	defer closeQuietly(s2)
+	fsckNow := func(when string) *Violation {
+		if !withFsck {
+			return nil
+		}
+		live := s2.Index().VerifBuckets()
+		tbl := make([]uint64, len(live))
+		for i, p := range live {
+			tbl[i] = uint64(p)
+		}
+		if _, clause, detail := fsck(fsckInput{Dir: dir2, Cfg: c.Cfg, Live: tbl}); clause != "" {
+			return viol("fsck|"+when+"-"+site+"|"+clause, 0, "%s", detail)
+		}
+		return nil
+	}
+	first := map[int]state{}
+	readAll := func(when string) *Violation {
+		for k := range c.Keys {
+			got, found, err := s2.Get(enc(k))
+			if err != nil {
+				return viol("recovery-read-error|"+site+"|"+when+":"+errClass(err), 0, "Get(key %d) %s returned %v", k, when, err)
+			}
+			if when == "after-recovery" {
+				ok := false
+				for _, a := range allowed[k] {
+					if a.present == found && (!found || bytes.Equal(a.val, got)) {
+						ok = true
+					}
+				}
+				if !ok {
+					sym := "stale-value"
+					if !found {
+						sym = "absent-but-durable"
+					}
+					return viol("recovery-"+sym+"|"+site+"|gc@"+c.PointGC, 0, "key %d reads (%s, found=%v) after a crash with a flush suspended at %s and a %s cycle (parked at %s, then completed) behind it; it had %d state(s) since the last completed flush, none of which this is", k, shortBytes(got), found, c.PointFlush, c.GC.K, c.PointGC, len(allowed[k]))
+				}
+				first[k] = state{got, found}
+			} else if f := first[k]; f.present != found || !bytes.Equal(f.val, got) {
+				return viol("post-recovery|"+site+"|key-changed-"+when, 0, "key %d read (%s, found=%v) right after recovery and reads (%s, found=%v) %s", k, shortBytes(f.val), f.present, shortBytes(got), found, when)
+			}
+		}
+		return nil
+	}
+	v = guard(0, "suspended-recovery", func() *Violation {
+		if v := fsckNow("after-recovery"); v != nil {
+			return v
+		}
+		if v := readAll("after-recovery"); v != nil {
+			return v
+		}
+		if err := s2.Flush(); err != nil {
+			return viol("flush-error|"+site+"|"+errClass(err), 0, "Flush on the recovered store: %v", err)
+		}
+		if mp := mhPrimaryOf(s2); mp != nil {
+			mp.GC(bg, int64(c.GCLow))
+		}
+		s2.Index().VerifGC(bg, true)
+		if err := s2.Flush(); err != nil {
+			return viol("flush-error|"+site+"|"+errClass(err), 0, "Flush after GC on the recovered store: %v", err)
+		}
+		if v := readAll("after-gc"); v != nil {
+			return v
+		}
+		return fsckNow("after-gc")
+	})
+	return st, v
+}
+
 func runSusp(c SuspCase, withFsck bool) (st suspStats, v *Violation) {
+	if c.Shape == 1 {
+		return runSusp2(c, withFsck)
+	}
 	dir := newScratch("susp")
 	defer os.RemoveAll(dir)
 	s, err := openStore(dir, c.Cfg)
@@ -272,10 +517,17 @@ func runSuspCampaign(t *testing.T, ev *Evidence, n int, withFsck bool, keep func
 			ev.Skip()
 			return
 		}
-		c := genSusp(rt)
+		var c SuspCase
+		if weighted(rt, "shape", []int{1, 1}) == 1 {
+			c = genSusp2(rt)
+		} else {
+			c = genSusp(rt)
+		}
 		st, v := runSusp(c, withFsck)
 		cl := []string{"suspended-call-crash"}
-		if st.snapped {
+		if st.snapped && c.Shape == 1 {
+			cl = append(cl, "suspended-flush-behind-gc:image-taken@"+c.PointFlush)
+		} else if st.snapped {
 			cl = append(cl, "suspended-call-crash:image-taken@"+c.Point)
 		}
 		ev.Record(c, st.snapped && st.overwrite, cl...)
